@@ -63,7 +63,7 @@ def strategy_case(draw):
                                "to_qtt_ttm", "qtt_roundtrip"]))
     dt = draw(st.sampled_from(["f64", "f64", "c128", "c128", "f32", "c64"]))
     case = {"op": op, "dt": dt, "seed": draw(gen.SEED), "scramble": draw(st.sampled_from([0, 0, 0, 1, 1e2, 1e4])),
-            "scale_exp": draw(st.sampled_from([0, 0, 0, -8, -4, 3, 6, -20, 20])), "scale_core": draw(st.integers(0, 5)),
+            "scale_exp": draw(st.sampled_from([0, 0, 0, -8, -4, 3, 6, -20, 20, -160, 160])), "scale_core": draw(st.integers(0, 5)),
             "eps": draw(st.sampled_from([None, None, "log", "log", "log"]))}
     if case["eps"] == "log":
         case["eps"] = 10 ** draw(st.floats(-14, -1))
@@ -149,11 +149,16 @@ def execute(case):
     if case["scramble"]:
         cores = scramble(cores, case["scramble"], g, wdt)
         ck.label("scrambled")
-    if case.get("scale_exp", 0) and dt in ("f64", "c128"):
+    if case.get("scale_exp", 0):
+        # the statement says "without ever changing ... scale": any representable scale, i.e. up to 10^+-160 in double and
+        # 10^+-20 in single precision (the squares of such numbers over- / underflow), when the cores are well balanced
+        e = case["scale_exp"]
+        if dt in ("f32", "c64"):
+            e = max(-20, min(20, e)) if not case["scramble"] else max(-4, min(4, e))
         k = case["scale_core"] % d
-        cores[k] = cores[k] * (10.0 ** case["scale_exp"])
-        ck.label("scaled:1e%d" % case["scale_exp"])
-        if abs(case["scale_exp"]) == 20:
+        cores[k] = cores[k] * (10.0 ** e)
+        ck.label("scaled:1e%d" % e)
+        if abs(e) >= 20:
             ck.label("scaled:extreme")
     cores = [c.to(DT[dt]).contiguous() for c in cores]
     x = T.TT([c.clone() for c in cores])
